@@ -612,11 +612,15 @@ def poolShow (I : Interp Sym) (t : Table) : PoolEx → String
   | .inl f => "v=" ++ evalSym f ++ ";vars=" ++ showStrs f.vars ++ ";text=" ++ hex f.text
   | .inr d => "v=" ++ evalDeep I d ++ ";vars=" ++ showStrs d.vars ++ ";text=" ++ hex (d.unparse I t)
 
+/-- index into the pool: `99` = the most recent entry, anything else modulo the pool size -/
+def poolIdx (pool : Array PoolEx) (s : String) : Nat :=
+  if s == "99" then pool.size - 1 else parseNat s % pool.size
+
 /-- one history step; `none` result = the operation returned an error (class recorded) -/
 def histStep (I : Interp Sym) (t : Table) (flat : Bool) (pool : Array PoolEx) (op : String) : Res PoolEx :=
   let f := splitOn op ":"
   let get (s : String) : Res (DeepEx Sym) :=
-    match pool[parseNat s % pool.size]? with
+    match pool[poolIdx pool s]? with
     | some e => poolToDeep I t e
     | none => .error (.err "badindex")
   let C := symCalc
@@ -641,20 +645,20 @@ def histStep (I : Interp Sym) (t : Table) (flat : Bool) (pool : Array PoolEx) (o
     -- substitution map `namehex=j;namehex=j`
     let pairs := (if m == "-" then [] else splitOn m ";").filterMap (fun kv =>
       match splitOn kv "=" with
-      | [k, v] => some (unhex k, parseNat v)
+      | [k, v] => some (unhex k, poolIdx pool v)
       | _ => none)
     match get i with
     | .error e => .error e
     | .ok a =>
       let σ : Str → Option (DeepEx Sym) := fun x =>
         match pairs.find? (fun p => p.1 == x) with
-        | some (_, j) => match pool[j % pool.size]? with
+        | some (_, j) => match pool[j]? with
           | some e => (match poolToDeep I t e with | .ok d => some d | .error _ => none)
           | none => none
         | none => none
       fin (a.subs I σ)
   | ["p", i, idxs] =>
-    match pool[parseNat i % pool.size]? with
+    match pool[poolIdx pool i]? with
     | none => .error (.err "badindex")
     | some (.inl fl) =>
       (match fl.partialIter I C t (parseNats idxs) with
